@@ -35,6 +35,9 @@ TOKENS = [
     # label values at the edge of the text form (a blank inside / eight digits), for clone and save+load
     {"labels": {"a": "~s:a b", "b": "ab"}, "vals": {"x": "00-01-02-03-04-05-06-07-08-09", "y": "--"}},
     {"labels": {"a": "α12345678", "b": "~s:z"}, "vals": {"x": "AA", "y": "01-02-03-04-05-06-07-08-09"}},
+    # labels at the eight-character limit, a seven-digit index
+    {"labels": {"a": "abcdefgh", "b": "abcdefg"}, "vals": {"x": "01-02-03-04-05-06-07-08", "y": "00"}},
+    {"labels": {"a": "α1234567", "b": "€uro€uro"}, "vals": {"x": "00-00", "y": "FF"}},
 ]
 
 
@@ -303,8 +306,8 @@ def plan_gc(run, prop, tier):
             e1_safe(run, acc, "B3")
     # E2: every property of the family sees the same instances (a change is attributed by the lenses, not by the plan)
     ts = e2_product(run, acc, "A3", [(2, 3, 0), (1, 4, 1), (16, 256, 2)] if tier == "quick" else [(2, 3, 0), (1, 4, 1), (16, 256, 2), (3, 7, 1), (8, 64, 0)])
-    e2_product(run, acc, "C2", [(2, 2, 0), (4, 9, 1)])
-    e2_product(run, acc, "D3", [(1, 3, 2)] if tier == "quick" else [(1, 3, 2), (1, 5, 0)])
+    e2_product(run, acc, "C2", [(2, 2, 0), (4, 9, 5)])
+    e2_product(run, acc, "D3", [(1, 3, 2)] if tier == "quick" else [(1, 3, 2), (1, 5, 6)])
     e2_product(run, acc, "B3", [(1, 3, 1)])
     e2_product(run, acc, "F4a", [(1, 4, 1)])
     e2_product(run, acc, "F4b", [(2, 4, 0)])
@@ -579,8 +582,8 @@ def plan_export(run, prop, tier):
         obs, extra = ("debug",), ("inspect",)
     # cap > number of ids: there are always never-added slots; dead slots keep stale contents (snapshots are not masked)
     e2_product(run, acc, "A3", [(2, 5, 0), (16, 32, 2)], extra_ops=extra, observers=obs)
-    e2_product(run, acc, "C2", [(2, 4, 0), (4, 3, 2)], extra_ops=extra, observers=obs)
-    e2_product(run, acc, "G3", [(2, 3, 0)], extra_ops=extra, observers=obs, need_gc=False)
+    e2_product(run, acc, "C2", [(2, 4, 0), (4, 3, 5)], extra_ops=extra, observers=obs)
+    e2_product(run, acc, "G3", [(2, 3, 6)], extra_ops=extra, observers=obs, need_gc=False)
     e2_product(run, acc, "F4a", [(1, 6, 2)], extra_ops=extra, observers=obs)
     if tier == "thorough":
         e2_product(run, acc, "F5", [(1, 5, 0)], extra_ops=extra, observers=obs)
